@@ -6,10 +6,19 @@ import (
 	"hash/fnv"
 	"io"
 	"math/rand/v2"
+	"os"
 	"runtime"
 	"strings"
 	"sync"
+	_ "unsafe" // go:linkname
 )
+
+// Since Go 1.26 the key generation functions of the standard library (ecdh, ed25519, ...) ignore the reader
+// they are given and draw from the internal DRBG; crypto/internal/rand.SetTestingReader (the hook behind
+// testing/cryptotest.SetGlobalRandom) redirects those draws as well.
+//
+//go:linkname randSetTestingReader crypto/internal/rand.SetTestingReader
+func randSetTestingReader(r io.Reader)
 
 // simRand replaces crypto/rand.Reader. The stream a caller reads from is chosen
 // by (seed, current step key, calling DefraDB function), so draws by background
@@ -37,6 +46,7 @@ func installRand(seed int64) {
 	globalRand.Draws = 0
 	globalRand.mu.Unlock()
 	crand.Reader = globalRand
+	randSetTestingReader(globalRand)
 }
 
 // setRandStep names the plan step (and node) being executed.
@@ -79,6 +89,12 @@ func (r *simRand) Read(p []byte) (int, error) {
 		key = r.stepKey + "|" + site
 	}
 	st, ok := r.streams[key]
+	if ok && orderFreeSite(site) {
+		// DefraDB draws one key and one nonce per encrypted field while it walks the fields of a document in
+		// Go map order: which field receives the n-th draw is not a function of the seed. These sites get the
+		// same bytes on every draw within a step, so that ciphertexts (and with them block ids) are.
+		ok = false
+	}
 	if !ok {
 		h := fnv.New64a()
 		h.Write([]byte(key))
@@ -89,5 +105,14 @@ func (r *simRand) Read(p []byte) (int, error) {
 		r.streams[key] = st
 	}
 	r.Draws++
+	if randTrace {
+		println("RAND", key, len(p))
+	}
 	return st.Read(p)
+}
+
+var randTrace = os.Getenv("VERIF_RANDTRACE") != ""
+
+func orderFreeSite(site string) bool {
+	return strings.HasSuffix(site, "internal/encryption.generateEncryptionKey") || strings.HasSuffix(site, "defradb/crypto.generateNonce")
 }
